@@ -13,6 +13,37 @@ where
 {
     queue: Mutex<VecDeque<Control<T>>>,
     condvar: Condvar,
+    #[cfg(tiny_http_verif)]
+    verif: VerifCounters,
+}
+
+/// Shadow counters for the verification harness. Every update happens while the queue mutex
+/// is held, so a snapshot taken under the same mutex is consistent with the queue itself.
+#[cfg(tiny_http_verif)]
+#[derive(Default)]
+struct VerifCounters {
+    pushes: std::sync::atomic::AtomicUsize,
+    tokens_in: std::sync::atomic::AtomicUsize,
+    blocked_pop: std::sync::atomic::AtomicUsize,
+    blocked_pop_timeout: std::sync::atomic::AtomicUsize,
+}
+
+/// Consistent view of the queue, see `MessagesQueue::verif_snapshot`.
+#[cfg(tiny_http_verif)]
+#[derive(Debug, Clone, Copy, PartialEq, Eq, Hash)]
+pub struct QueueSnapshot {
+    /// elements currently queued
+    pub elems: usize,
+    /// unblock tokens currently queued
+    pub tokens: usize,
+    /// elements ever pushed
+    pub pushes: usize,
+    /// unblock tokens ever pushed
+    pub tokens_in: usize,
+    /// threads currently waiting inside `pop`
+    pub blocked_pop: usize,
+    /// threads currently waiting inside `pop_timeout`
+    pub blocked_pop_timeout: usize,
 }
 
 impl<T> MessagesQueue<T>
@@ -23,6 +54,8 @@ where
         Arc::new(MessagesQueue {
             queue: Mutex::new(VecDeque::with_capacity(capacity)),
             condvar: Condvar::new(),
+            #[cfg(tiny_http_verif)]
+            verif: VerifCounters::default(),
         })
     }
 
@@ -30,6 +63,10 @@ where
     pub fn push(&self, value: T) {
         let mut queue = self.queue.lock().unwrap();
         queue.push_back(Control::Elem(value));
+        #[cfg(tiny_http_verif)]
+        self.verif
+            .pushes
+            .fetch_add(1, std::sync::atomic::Ordering::Relaxed);
         self.condvar.notify_one();
     }
 
@@ -37,6 +74,10 @@ where
     pub fn unblock(&self) {
         let mut queue = self.queue.lock().unwrap();
         queue.push_back(Control::Unblock);
+        #[cfg(tiny_http_verif)]
+        self.verif
+            .tokens_in
+            .fetch_add(1, std::sync::atomic::Ordering::Relaxed);
         self.condvar.notify_one();
     }
 
@@ -52,7 +93,15 @@ where
                 None => (),
             }
 
+            #[cfg(tiny_http_verif)]
+            self.verif
+                .blocked_pop
+                .fetch_add(1, std::sync::atomic::Ordering::Relaxed);
             queue = self.condvar.wait(queue).unwrap();
+            #[cfg(tiny_http_verif)]
+            self.verif
+                .blocked_pop
+                .fetch_sub(1, std::sync::atomic::Ordering::Relaxed);
         }
     }
 
@@ -78,8 +127,16 @@ where
                 None => (),
             }
             let now = Instant::now();
+            #[cfg(tiny_http_verif)]
+            self.verif
+                .blocked_pop_timeout
+                .fetch_add(1, std::sync::atomic::Ordering::Relaxed);
             let (_queue, result) = self.condvar.wait_timeout(queue, timeout).unwrap();
             queue = _queue;
+            #[cfg(tiny_http_verif)]
+            self.verif
+                .blocked_pop_timeout
+                .fetch_sub(1, std::sync::atomic::Ordering::Relaxed);
             let sleep_time = now.elapsed();
             duration = if duration > sleep_time {
                 duration - sleep_time
@@ -91,6 +148,30 @@ where
             {
                 return None;
             }
+        }
+    }
+}
+
+#[cfg(tiny_http_verif)]
+impl<T> MessagesQueue<T>
+where
+    T: Send,
+{
+    /// Takes the queue mutex and returns the counters together with the queue contents.
+    pub fn verif_snapshot(&self) -> QueueSnapshot {
+        use std::sync::atomic::Ordering::Relaxed;
+        let queue = self.queue.lock().unwrap();
+        let elems = queue
+            .iter()
+            .filter(|c| matches!(c, Control::Elem(_)))
+            .count();
+        QueueSnapshot {
+            elems,
+            tokens: queue.len() - elems,
+            pushes: self.verif.pushes.load(Relaxed),
+            tokens_in: self.verif.tokens_in.load(Relaxed),
+            blocked_pop: self.verif.blocked_pop.load(Relaxed),
+            blocked_pop_timeout: self.verif.blocked_pop_timeout.load(Relaxed),
         }
     }
 }
